@@ -253,14 +253,38 @@ def strategy(shard):
     if fam == "delay":
         seq = st.lists(st.tuples(st.integers(0, 7), st.integers(0, 1)), min_size=3, max_size=40)
         return st.builds(lambda c, s: {"kind": "delay", "cfg": c, "seq": [list(x) for x in s]}, cell, seq)
+    rt_cells = [c for c in cells if _is_rt_cell(fam, c) and c.get("drive", "x") != "none" and not c.get("tick_at_start")] \
+        if fam in ("counter", "clkdiv", "toggle") else []
+    if rt_cells:
+        def mk_vary(c, segs):
+            pw = c.get("port_width", 3)
+            lo = 0 if fam == "counter" else 1
+            ticks = [[1, 1, 1]] if fam == "counter" else [[0, 1, 1], [0, 1, 1]]
+            for en, a, b_, k in segs:
+                a = lo + a % ((1 << pw) - lo)
+                b_ = lo + b_ % ((1 << pw) - lo)
+                if fam == "counter":
+                    ticks += [[0 if en else 1, a, 0]] * k
+                else:
+                    ticks += [[en, a, b_]] * k
+            return {"kind": fam, "cfg": c, "vary": "ticks", "ticks": ticks[:90]}
+        seg = st.tuples(st.sampled_from([1, 1, 1, 1, 0]), st.integers(0, 15), st.integers(0, 15), st.integers(1, 11))
+        vary = st.builds(mk_vary, st.sampled_from(rt_cells), st.lists(seg, min_size=2, max_size=12))
+    else:
+        vary = None
     if fam == "counter":
+        base = st.builds(lambda c, r, lim: {"kind": "counter", "cfg": c, "rst": r, "lim": lim % (1 << c.get("port_width", 3))},
+                         cell, _bits(), st.integers(0, 15))
+        return st.one_of(base, vary, vary) if vary is not None else base
+    if False:
         return st.builds(lambda c, r, lim: {"kind": "counter", "cfg": c, "rst": r, "lim": lim % (1 << c.get("port_width", 3))},
                          cell, _bits(), st.integers(0, 15))
     if fam in ("clkdiv", "toggle"):
-        return st.builds(lambda c, en, d0, d1: {"kind": fam, "cfg": c, "en": en,
+        base = st.builds(lambda c, en, d0, d1: {"kind": fam, "cfg": c, "en": en,
                                                 "d0": d0 % (1 << c.get("port_width", 3)),
                                                 "d1": d1 % (1 << c.get("port_width", 3))},
                          cell, _bits(), st.integers(0, 15), st.integers(0, 15))
+        return st.one_of(base, base, vary) if vary is not None else base
     if fam == "debounce":
         return st.builds(lambda c, s: {"kind": "debounce", "cfg": c, "inp": s}, cell, _bits(80))
     raise ValueError(fam)
@@ -281,9 +305,12 @@ def enumerate(shard):  # noqa: A001 - name fixed by the module contract
                 d1s = range(1 << pw) if (c.get("p1") or {}).get("kind") == "rt" and c["p0"]["kind"] == "rt" else [1]
                 for d1 in d1s:
                     yield {"kind": fam, "cfg": c, "en": "all", "L": max(4, shard["L"] - 3), "d0": d0, "d1": d1}
+            if c.get("drive") != "none" and not c.get("tick_at_start"):
+                yield {"kind": fam, "cfg": c, "vary": "steps"}
         elif fam == "counter" and c["limit_kind"] == "rt":
             for lim in range(1 << c["port_width"]):
                 yield {"kind": fam, "cfg": c, "rst": "all", "L": shard["L"], "lim": lim}
+            yield {"kind": fam, "cfg": c, "vary": "steps"}
         else:
             key = {"delay": "seq", "counter": "rst", "clkdiv": "en", "toggle": "en", "debounce": "inp"}[fam]
             yield {"kind": fam, "cfg": c, key: "all", "L": shard["L"], "d0": 1, "d1": 1, "lim": 0}
@@ -471,6 +498,8 @@ def _check_delay(case, out):
 
 # ======================================================================================= counter
 def _check_counter(case, out):
+    if case.get("vary"):
+        return _check_vary(case, out)
     cfg = case["cfg"]
     key, b = _build("counter", cfg, {"clk": 0, "rst": 0, "lim": 0})
     if _status_early(out, b, "counter"):
@@ -537,6 +566,8 @@ def _en_sequences(case, cfg):
 
 
 def _check_gen(case, out):
+    if case.get("vary"):
+        return _check_vary(case, out)
     cfg = case["cfg"]
     fam = case["kind"]
     d0, st0 = _period(cfg["p0"], case["d0"], cfg)
@@ -678,6 +709,172 @@ def _toggle_stretch(out, base, cfg, case, first, second, obs, seq, t_end):
             f"{cfg} first={first} second={second}: tick {i} after release: states {[int(x) for x in got]}, expected "
             f"{[int(x) for x in exp]} (enable sequence {seq[:t_end]})")
     return True
+
+
+
+# ======================================================================================= run-time periods changing mid-run
+def _is_rt_cell(fam, c):
+    if fam == "counter":
+        return c["limit_kind"] == "rt"
+    return c["p0"]["kind"] == "rt" or (c.get("p1") or {}).get("kind") == "rt"
+
+
+def _vary_runs(case):
+    """-> iterable of tick lists; a tick is [en_or_rst, d0_or_limit, d1]"""
+    fam, cfg = case["kind"], case["cfg"]
+    if case["vary"] == "ticks":
+        yield [list(t) for t in case["ticks"]]
+        return
+    pw = cfg.get("port_width", 3)
+    if fam == "counter":
+        vals = range(0, 1 << pw)
+        r = 1 if cfg.get("reset") else 0
+        for a in vals:
+            for b in vals:
+                if a != b:
+                    for t in range(0, a + 2):
+                        yield [[r, a, 0]] + [[0, a, 0]] * (a + 1 + t) + [[0, b, 0]] * (2 * b + 4)
+        return
+    vals = range(1, 1 << pw)
+    if fam == "clkdiv":
+        for a in vals:
+            for b in vals:
+                if a != b:
+                    for t in range(0, a + 1):
+                        yield [[0, a, 1]] * 2 + [[1, a, 1]] * (a + t + 1) + [[1, b, 1]] * (2 * b + 3)
+        return
+    p0rt = cfg["p0"]["kind"] == "rt"
+    p1rt = (cfg.get("p1") or {}).get("kind") == "rt"
+    top = (1 << pw) - 1
+    firsts = sorted({top, max(1, top - 2), 1}) if p0rt else [1]
+    seconds = sorted({top, 2, 1}) if p1rt else [1]
+    for f1 in firsts:
+        for s1 in seconds:
+            for f2 in (vals if p0rt else [1]):
+                for s2 in (vals if p1rt else [1]):
+                    if (f1, s1) != (f2, s2):
+                        per = 2 * top
+                        for t in range(0, per + 1):
+                            yield [[0, f1, s1]] * 2 + [[1, f1, s1]] * (per + t + 1) + [[1, f2, s2]] * (2 * per + 3)
+
+
+def _check_vary(case, out):
+    fam, cfg = case["kind"], case["cfg"]
+    if not _is_rt_cell(fam, cfg):
+        out.status = "unspecified"
+        out.labels.append(f"{fam}:vary_needs_runtime_period")
+        return
+    if fam == "counter":
+        init = {"clk": 0, "rst": 0, "lim": 0}
+    else:
+        init = {"clk": 0, "en": 0, "dis": 1 if cfg.get("require_enable") else 0, "d0": 1, "d1": 1}
+    key, b = _build(fam, cfg, init)
+    if _status_early(out, b, fam):
+        return
+    sim = b.sim
+    util = {"counter": "continuous_counter", "clkdiv": "ClockDivider", "toggle": "ToggleSignal"}[fam]
+    runs = 0
+    lowered_inside = False
+    default = bool(cfg.get("default_state"))
+    cb = bool(cfg.get("callbacks"))
+
+    def const_or(p, port_val, dflt):
+        if p is None:
+            return dflt
+        return port_val if p["kind"] == "rt" else p["n"]
+
+    try:
+        for ticks in _vary_runs(case):
+            runs += 1
+            sim.restore(b.snap0)
+            if fam == "counter":
+                mon = M.CounterWindowMonitor()
+                for t, (r, lim, _x) in builtins.enumerate(ticks):
+                    r = r if cfg.get("reset") else 0
+                    if mon.L is not None and lim < mon.L and mon.prev > lim:
+                        lowered_inside = True
+                    sim.clock("clk", rst=r, lim=lim)
+                    v = sim.get("o_cnt")
+                    bad = mon.tick(lim, v, bool(r))
+                    if sim.get("o_cb") != v:
+                        bad.append(("on_change", f"value passed to on_change = {sim.get('o_cb')}, counter = {v}"))
+                    if bad:
+                        out.add({"util": util, "limit_kind": "rt", "vary": True, "obs": bad[0][0]},
+                                f"{cfg} (reset, limit) per tick {[x[:2] for x in ticks[:t + 1]]}: tick {t}: "
+                                + "; ".join(x for _o, x in bad))
+                        return
+                continue
+            rl = M.ResetLine(cfg["drive"], cfg.get("require_enable"))
+            armed = False
+            prev_state = default
+            if fam == "clkdiv":
+                mon = M.PulseWindowMonitor()
+            else:
+                mon = M.ToggleTickModel(default, cfg.get("first_state"))
+            last_per = None
+            for t, (en, d0, d1) in builtins.enumerate(ticks):
+                dis = 1 - en
+                reset = rl.at_edge(en, dis)
+                sim.clock("clk", en=en, dis=dis, d0=d0, d1=d1)
+                s_, r_, f_ = sim.get("o_state"), sim.get("o_rise"), sim.get("o_fall")
+                cr, cf = sim.get("o_cbr"), sim.get("o_cbf")
+                bad = []
+                if s_ is None:
+                    bad.append(("state", "state undefined"))
+                elif fam == "clkdiv":
+                    D = d0
+                    if last_per is not None and D < last_per and not reset:
+                        lowered_inside = True
+                    last_per = D
+                    if reset:
+                        mon.reset()
+                        if s_ != int(default):
+                            bad.append(("state_disabled", f"state = {s_} while disabled, default_state = {int(default)}"))
+                    else:
+                        bad += mon.tick(D, s_ != int(default))
+                        rise = int((not prev_state) and bool(s_))
+                        fall = int(prev_state and not s_)
+                        if r_ != rise:
+                            bad.append(("rising", f"rising() = {r_} but the state went {int(prev_state)} -> {s_}"))
+                        if f_ != fall:
+                            bad.append(("falling", f"falling() = {f_} but the state went {int(prev_state)} -> {s_}"))
+                        if cb and (cr != rise or cf != fall):
+                            bad.append(("callback", f"callbacks {cr}/{cf} but the state went {int(prev_state)} -> {s_}"))
+                else:
+                    first = const_or(cfg["p0"], d0, None)
+                    second = const_or(cfg.get("p1"), d1, first)
+                    per = first + second
+                    if last_per is not None and per < last_per and not reset and armed:
+                        lowered_inside = True
+                    last_per = per
+                    if reset:
+                        armed = True
+                    if armed:
+                        forced = reset and prev_state != default
+                        mon.tick(first, second, reset)
+                        if s_ != int(mon.state):
+                            bad.append(("state", f"state = {s_}, upstream mock says {int(mon.state)}"))
+                        elif not forced:
+                            if r_ != int(mon.rising) or f_ != int(mon.falling):
+                                bad.append(("pulse", f"rising/falling = {r_}/{f_}, upstream mock says "
+                                            f"{int(mon.rising)}/{int(mon.falling)}"))
+                            elif cb and (cr != int(mon.rising) or cf != int(mon.falling)):
+                                bad.append(("callback", f"callbacks = {cr}/{cf}, upstream mock says "
+                                            f"{int(mon.rising)}/{int(mon.falling)}"))
+                if bad:
+                    pk = cfg["p0"]["kind"] + ("" if fam == "clkdiv" or cfg.get("p1") is None else "+" + cfg["p1"]["kind"])
+                    out.add({"util": util, "period_kind": pk, "vary": True, "obs": bad[0][0]},
+                            f"{cfg} (enable, d0, d1) per tick {ticks[:t + 1]}: tick {t}: " + "; ".join(x for _o, x in bad))
+                    return
+                prev_state = bool(s_)
+    except SimError as e:
+        _sim_fail(out, key, e, None)
+        return
+    out.counters["sequences"] = runs
+    out.labels.append(f"{fam}:vary:{case['vary']}")
+    if lowered_inside:
+        out.labels.append(f"{fam}:period_lowered_mid_period")
+    out.nontrivial = lowered_inside
 
 
 # ======================================================================================= debounce
